@@ -94,7 +94,7 @@ PROPS = {
     },
     "C13": {
         "suites": [("gw", "query")],
-        "theorems_carry": "lock exclusion (no normal item while locked), one slot per answered query request, lock clears exactly when all slots are used, FIFO afterwards",
+        "theorems_carry": "lock exclusion (no normal item while locked), one slot per answered query request, lock clears exactly when all slots are used, FIFO afterwards; the alias index of an entry (the pure functions the model's getResourceSubscription / processGetResponse / unregister are built from): after a get response names the normalised query, the raw query and the normalised one resolve to the same cached resource, other queries are unaffected, a query that resolves to nothing gets its own resource",
         "correspondence_only": "one request per cached normalised query, answers applied to that query's resource only, alias sharing: lockstep (queries/links/lock in every snapshot). Known finding D1.",
         "assumptions": ["one connection never holds two aliases of one normalised query (Go map order)"],
     },
